@@ -166,7 +166,8 @@ def plan_queries(ow, rng, quick):
                 worst = max(worst, r2max * (cut2x2 // 2 + 1) * rd * BAND, rn * (BAND + 1) * (cut2x2 // 2 + 1))
             if worst >= INTMAX:
                 continue
-            out.append({"chem": c + 1, "cut2x2": cut2x2, "rad": rad, "band": BAND, "mode": mode, "shell": k})
+            out.append({"chem": c + 1, "cut2x2": cut2x2, "rad": rad, "band": BAND, "mode": mode, "shell": k,
+                        "lemma": not any(o["chem"] == c + 1 for o in out)})
     return out
 
 
@@ -273,7 +274,7 @@ def run(ctx):
             continue
         ow = r["ow"]
         cases.append({"w": {k: ow[k] for k in ("dim", "M", "D", "basis")},
-                      "queries": [{k: q[k] for k in ("chem", "cut2x2", "rad", "band", "classes", "lattice")} for q in r["queries"]]})
+                      "queries": [{k: q[k] for k in ("chem", "cut2x2", "rad", "band", "lemma", "classes", "lattice")} for q in r["queries"]]})
         metas.append({"name": w["name"], "family": fam, "opt": opt, "world": w, "seed": seed, "lattice": r["lattice"],
                       "queries": r["queries"]})
 
